@@ -171,14 +171,36 @@ class Watchdog(threading.Thread):
             time.sleep(2)
 
 
-def run_kani(scratch, crate, obs, jobs, playback=False):
+def discover_unwindset(scratch, obs):
+    """For obligations with `unwindset=[(regex on the demangled function of a loop, bound), ..]`: look the loop ids up
+    in the harness' goto binary (they contain crate hashes, so they cannot be written down) -> "id:bound,id:bound"."""
+    sets = []
+    for o in obs:
+        pats = o.get("unwindset") or []
+        if not pats:
+            continue
+        gotos = []
+        for root, _, files in os.walk(os.path.join(scratch, "target", "kani")):
+            for f in files:
+                if f.endswith(o["harness"] + ".out") and "verif_harness" in f:
+                    gotos.append(os.path.join(root, f))
+        for g in gotos[:1]:
+            txt = subprocess.run(["cbmc", "--show-loops", g], capture_output=True, text=True).stdout
+            for m in re.finditer(r"^Loop (\S+):\n\s+file .*? function (.*)$", txt, re.M):
+                for pat, bound in pats:
+                    if re.search(pat, m.group(2)):
+                        sets.append("%s:%d" % (m.group(1), bound))
+    return ",".join(sorted(set(sets)))
+
+
+def run_kani(scratch, crate, obs, jobs, playback=False, cbmc_args=None, prebuild=False):
     """crate: a crate name or a list of crate names (one cargo invocation, shared -j pool).
     Returns (json or None, stdout text, wall seconds)."""
     crates_ = [crate] if isinstance(crate, str) else list(crate)
     out_json = os.path.join(scratch, "kani_%s.json" % "+".join(crates_))
     if os.path.exists(out_json):
         os.remove(out_json)
-    timeout = max(ob.get("timeout", 300) for ob in obs)
+    timeout = 5 if prebuild else max(ob.get("timeout", 300) for ob in obs)
     cmd = ["cargo", "kani"]
     for c_ in crates_:
         cmd += ["-p", c_]
@@ -197,6 +219,8 @@ def run_kani(scratch, crate, obs, jobs, playback=False):
         cmd += ["-j", str(jobs), "--export-json", out_json]
     for ob in obs:
         cmd += ["--harness", module_path(ob["anchor"]) + "::" + ob["harness"]]
+    if cbmc_args:
+        cmd += ["--cbmc-args"] + list(cbmc_args)  # must be last
     t0 = time.time()
     p = subprocess.run(cmd, cwd=scratch, env=KANI_ENV, stdout=subprocess.PIPE, stderr=subprocess.STDOUT,
                        text=True, timeout=timeout * max(1, (len(obs) + jobs - 1) // jobs) + 1800)
@@ -308,12 +332,19 @@ def match_finding(findings, prop, ob_id, chk):
 def extract_playback_tests(stdout):
     """The generated unit tests, without their doc comments (multi-line check descriptions break those). Matching on the
     test function itself rather than on the ``` fences: compiler output may contain stray fences."""
-    return [m.group(0) for m in re.finditer(r"#\[test\]\nfn kani_concrete_playback_\w+\(\) \{\n.*?\n\}\n", stdout, re.S)]
+    tests, seen = [], set()
+    for m in re.finditer(r"#\[test\]\nfn (kani_concrete_playback_\w+)\(\) \{\n.*?\n\}\n", stdout, re.S):
+        if m.group(1) not in seen:  # Kani may print the same test once per failed check
+            seen.add(m.group(1))
+            tests.append(m.group(0))
+    return tests
 
 
 def run_playback(scratch, ob, tests):
     """Appends the generated unit tests to the (scratch copy of the) harness module and runs them natively."""
     dst = os.path.join(scratch, "verif_harness", ob["module"].replace("/", "__"))
+    have = open(dst).read()
+    tests = [t for t in tests if re.search(r"fn (kani_concrete_playback_\w+)", t).group(1) not in have]
     with open(dst, "a") as f:
         f.write("\n" + "\n".join(tests) + "\n")
     cmd = ["cargo", "kani", "playback", "-Z", "concrete-playback", "-Z", "function-contracts", "-Z", "stubbing",
@@ -393,7 +424,28 @@ def check_property(prop, tier, only, keep, jobs):
             group = [o for o in kani_obs + canaries if o["crate"] in c]
             log("[%s] kani: crates %s, %d harnesses" % (prop, ",".join(c), len(group)))
             try:
-                data, stdout, wall = run_kani(scratch, c, group, jobs)
+                plain = [o for o in group if not o.get("unwindset")]
+                special = [o for o in group if o.get("unwindset")]
+                data, stdout = None, ""
+                if plain:
+                    data, stdout, wall = run_kani(scratch, c, plain, jobs)
+                if special and (data is not None or not plain):
+                    # two-phase: generate the goto binaries (5 s per harness), look the loop ids up, run with --unwindset
+                    run_kani(scratch, c, special, jobs, prebuild=True)
+                    us = discover_unwindset(scratch, special)
+                    d2, s2, _ = run_kani(scratch, c, special, jobs, cbmc_args=(["--unwindset", us] if us else None))
+                    stdout += s2
+                    if d2 is not None:
+                        if data is None:
+                            data = d2
+                        else:
+                            for key in ("property_details", "cbmc", "error_details", "harness_metadata"):
+                                data.setdefault(key, []).extend(d2.get(key, []))
+                            data.setdefault("verification_results", {}).setdefault("results", []).extend(
+                                d2.get("verification_results", {}).get("results", []))
+                    elif data is not None:
+                        for o in special:
+                            undecided.append((o["id"], "unwindset run produced no result"))
             except subprocess.TimeoutExpired:
                 for o in group:
                     undecided.append((o["id"], "cargo kani invocation timed out"))
